@@ -554,7 +554,7 @@ int main(int argc, char **argv)
 	OPS.maxdepth = depth ? depth : thorough ? 5 : 4;
 	base_depth = OPS.maxdepth;
 	xp_describe_job = describe_job;
-	xp_init(hc_san_as ? hc_san_as : PROP, a.tier, 1 << 24, a.budget_s);
+	xp_init(hc_san_as ? hc_san_as : PROP, a.tier, a.thorough ? 1 << 26 : 1 << 24, a.budget_s);
 	xp_guard(hc_san_as, &W.cur, 1);
 	if (a.replay) {
 		int j = xp_load_replay(a.replay);
